@@ -897,6 +897,23 @@ Proof.
   rewrite (split_join [u] ind Hc). cbn [map nth_str nth]. rewrite strip_sp. apply stripped_strip, Su.
 Qed.
 
+Definition wrows (f : file) (ind : str) (iv : var) : list (list dec) :=
+  map (map fmt6e) (transpose_rows (length (v_cells iv)) (filled iv :: map filled (depvars ind f))).
+
+Lemma impl_write_shape f n ls ind sd iv :
+  impl_write f = Some (n, ls) ->
+  indep_name f = Some ind -> get_attr (s2z "SDATE") (f_attrs f) = Some sd -> find_var ind f = Some iv ->
+  forallb no_nl (hdr_other f ind sd) = true ->
+  ls = map PT (hdr_strings f ind sd) ++ map PR (wrows f ind iv) /\ n = header_count f ind.
+Proof.
+  unfold impl_write; intros W Hi Hs Hf Hn0. pose proof (hdr_no_nl _ _ _ Hn0) as Hn. rewrite Hi, Hs, Hf in W.
+  cbv zeta in W.
+  set (rows := transpose_rows (length (v_cells iv)) (filled iv :: map filled (depvars ind f))) in W.
+  assert (En : n = header_count f ind) by congruence.
+  assert (El : ls = concat (map print (hdr_strings f ind sd)) ++ map (fun r => PR (map fmt6e r)) rows) by congruence.
+  subst n ls. rewrite (print_all _ Hn). unfold wrows. fold rows. rewrite map_map. split; reflexivity.
+Qed.
+
 (* hypotheses on the input file under which the writer's header is read back (all booleans) *)
 Definition desc_ok (v : var) : bool :=
   negb (has_char cCOMMA (v_name v)) && stripped (v_name v)
@@ -924,22 +941,22 @@ Qed.
 (* WHOLE FILE, header part: the reader's loop run on the writer's output, for any number of dependent
    variables, attributes and records, ends exactly at the first data row with the variable names in
    order, every missing-code token, the units of every dependent variable and what line 9 carries *)
-Lemma write_then_read_header f n ls ind sd :
+Lemma write_then_read_header f n ls ind sd iv :
   impl_write f = Some (n, ls) ->
-  indep_name f = Some ind -> get_attr (s2z "SDATE") (f_attrs f) = Some sd ->
+  indep_name f = Some ind -> get_attr (s2z "SDATE") (f_attrs f) = Some sd -> find_var ind f = Some iv ->
   forallb no_nl (hdr_other f ind sd) = true ->
   header_ok f ind = true ->
-  exists s rows,
-    run_header n 2 (Z.to_nat (n - 1)) ls (s0_of n) = Some (s, map PR rows)
+  exists s,
+    run_header n 2 (Z.to_nat (n - 1)) ls (s0_of n) = Some (s, map PR (wrows f ind iv))
     /\ s_vars s = Some (ind :: map v_name (depvars ind f))
-    /\ map fst (s_miss s) = map code_str (depvars ind f)
-    /\ map snd (s_miss s) = map code_of (map code_str (depvars ind f))
+    /\ s_miss s = map (fun t => (t, code_of t)) (map code_str (depvars ind f))
     /\ s_units s = line9_unit (indep_line f ind) :: map units_str (depvars ind f)
-    /\ length (s_scales s) = length (depvars ind f)
+    /\ s_scales s = map (fun _ => D 1 0) (depvars ind f)
     /\ s_nsc s = 0.
 Proof.
-  intros W Hi Hs Hn Hok.
-  destruct (header_count_exact _ _ _ _ _ W Hi Hs Hn) as (rows & El & Elen & En & _). subst ls.
+  intros W Hi Hs Hf Hn Hok.
+  destruct (impl_write_shape _ _ _ _ _ _ W Hi Hs Hf Hn) as [El En]. subst ls. unfold header_count in En.
+  set (rows := wrows f ind iv).
   unfold header_ok in Hok.
   apply andb_true_iff in Hok as [Hok Hsl]. apply andb_true_iff in Hok as [Hok Hw].
   apply andb_true_iff in Hok as [Hok Hal]. apply andb_true_iff in Hok as [Hok Hd].
@@ -948,10 +965,9 @@ Proof.
   destruct deps as [|d0 dt] eqn:Edeps; [discriminate|]. rewrite <- Edeps in *.
   assert (Hones : forallb clean_code (map (fun _ : var => s2z "1") deps) = true).
   { clear. induction deps as [|v t IH]; [reflexivity|]. cbn [map forallb]. rewrite IH. reflexivity. }
-  assert (Esc : exists scs, eval_list (join sep (map (fun _ : var => s2z "1") deps)) = Some scs /\ length scs = length deps).
-  { rewrite Edeps in *. cbn [map] in *. destruct (eval_list_length _ _ Hones) as (ms & E & L).
-    exists ms. split; [exact E|]. rewrite L. cbn [length]. rewrite map_length. reflexivity. }
-  destruct Esc as (scs & Esc & Lsc).
+  set (scs := map (fun t => (t, code_of t)) (map (fun _ : var => s2z "1") deps)).
+  assert (Esc : eval_list (join sep (map (fun _ : var => s2z "1") deps)) = Some scs).
+  { unfold scs. rewrite Edeps in *. cbn [map] in *. apply eval_list_print, Hones. }
   assert (Ems : eval_list (join sep (map code_str deps)) = Some (map (fun t => (t, code_of t)) (map code_str deps))).
   { rewrite Edeps in *. cbn [map] in *. apply eval_list_print, Hcodes. }
   assert (Enames : parse_names (join sep (ind :: map v_name deps)) = ind :: map v_name deps).
@@ -976,35 +992,297 @@ Proof.
   - reflexivity.
   - exact Hal.
   - exact Enames.
-  - eexists. exists rows. split; [|repeat split].
+  - eexists. split; [|repeat split].
     + replace (Z.to_nat (n - 1)) with (11 + (length (map (fun v => join sep [v_name v; units_str v]) deps)
               + (2 + (length (map (fun kv : str * str => fst kv ++ [cCOLON; cSP] ++ one_line (snd kv)) my) + 1))))%nat.
       * unfold hdr_strings. fold deps. fold my. exact ER.
       * rewrite !map_length. rewrite En. unfold str in *. lia.
     + reflexivity.
-    + cbn [s_miss]. rewrite !map_map. apply map_ext. reflexivity.
-    + cbn [s_miss]. rewrite !map_map. apply map_ext. reflexivity.
     + reflexivity.
-    + cbn [s_scales]. rewrite map_length. exact Lsc.
+    + reflexivity.
+    + cbn [s_scales]. unfold scs. rewrite !map_map. apply map_ext. reflexivity.
     + reflexivity.
 Qed.
 
 (* the reader applied to the writer's output = the data stage applied to that header state *)
-Lemma roundtrip_through_header f n ls ind sd :
+Lemma roundtrip_through_header f n ls ind sd iv :
   impl_write f = Some (n, ls) ->
-  indep_name f = Some ind -> get_attr (s2z "SDATE") (f_attrs f) = Some sd ->
+  indep_name f = Some ind -> get_attr (s2z "SDATE") (f_attrs f) = Some sd -> find_var ind f = Some iv ->
   forallb no_nl (hdr_other f ind sd) = true ->
   header_ok f ind = true ->
-  exists s rows,
-    impl_roundtrip f = read_data n s (map PR rows)
+  exists s,
+    impl_roundtrip f = read_data n s (map PR (wrows f ind iv))
     /\ s_vars s = Some (ind :: map v_name (depvars ind f))
-    /\ map fst (s_miss s) = map code_str (depvars ind f)
-    /\ map snd (s_miss s) = map code_of (map code_str (depvars ind f))
+    /\ s_miss s = map (fun t => (t, code_of t)) (map code_str (depvars ind f))
     /\ s_units s = line9_unit (indep_line f ind) :: map units_str (depvars ind f)
-    /\ length (s_scales s) = length (depvars ind f)
+    /\ s_scales s = map (fun _ => D 1 0) (depvars ind f)
     /\ s_nsc s = 0.
 Proof.
-  intros W Hi Hs Hn Hok.
-  destruct (write_then_read_header _ _ _ _ _ W Hi Hs Hn Hok) as (s & rows & R & P).
-  exists s, rows. split; [|exact P]. unfold impl_roundtrip, impl_read. rewrite W, R. reflexivity.
+  intros W Hi Hs Hf Hn Hok.
+  destruct (write_then_read_header _ _ _ _ _ _ W Hi Hs Hf Hn Hok) as (s & R & P).
+  exists s. split; [|exact P]. unfold impl_roundtrip, impl_read. rewrite W, R. reflexivity.
 Qed.
+
+(* ------------------------------------------------------------------ the data stage on whole files *)
+Lemma str_eqb_eq a b : str_eqb a b = true <-> a = b.
+Proof. apply (list_eqb_eq Z.eqb Z.eqb_eq). Qed.
+Lemma str_eqb_sym a b : str_eqb a b = str_eqb b a.
+Proof.
+  destruct (str_eqb a b) eqn:E1, (str_eqb b a) eqn:E2; try reflexivity.
+  - apply str_eqb_eq in E1. subst. assert (H : str_eqb b b = true) by (apply str_eqb_eq; reflexivity). congruence.
+  - apply str_eqb_eq in E2. subst. assert (H : str_eqb a a = true) by (apply str_eqb_eq; reflexivity). congruence.
+Qed.
+
+Lemma dtb_rows rows : drop_trailing_blank (map PR rows) = map PR rows.
+Proof.
+  induction rows as [|r t IH]; [reflexivity|]. cbn [map drop_trailing_blank]. rewrite IH.
+  destruct (map PR t); reflexivity.
+Qed.
+
+Lemma data_rows_PR (rows : list (list dec)) :
+  flat_map (fun l => match data_row l with Some r => [r] | None => [] end) (map PR rows) = map (map CV) rows.
+Proof. induction rows as [|r t IH]; [reflexivity|]. cbn [map flat_map data_row app]. rewrite IH. reflexivity. Qed.
+
+Lemma concat_length_uniform {A} (rows : list (list A)) w :
+  Forall (fun r => length r = w) rows -> length (concat rows) = (length rows * w)%nat.
+Proof.
+  induction 1 as [|r t Hr Ht IH]; [reflexivity|]. cbn [concat length]. rewrite app_length, IH, Hr. cbn. reflexivity.
+Qed.
+
+Lemma chunks_concat {A} (rows : list (list A)) w :
+  (0 < w)%nat -> Forall (fun r => length r = w) rows -> chunks (length rows) w (concat rows) = rows.
+Proof.
+  intros Hw. induction 1 as [|r t Hr Ht IH]; [reflexivity|]. cbn [length chunks concat].
+  destruct (r ++ concat t) as [|x l] eqn:E.
+  - apply (f_equal (@length A)) in E. rewrite app_length, Hr in E. cbn in E. lia.
+  - rewrite <- E. rewrite firstn_app, skipn_app, Hr, Nat.sub_diag. rewrite <- Hr at 1 3. rewrite firstn_all, skipn_all.
+    cbn [firstn skipn app]. rewrite app_nil_r. rewrite IH. reflexivity.
+Qed.
+
+Lemma column_map {A B} (g : A -> B) i (rows : list (list A)) : column i (map (map g) rows) = map g (column i rows).
+Proof.
+  induction rows as [|r t IH]; [reflexivity|]. cbn [map column]. rewrite nth_error_map.
+  destruct (nth_error r i); cbn [option_map map]; rewrite IH; reflexivity.
+Qed.
+
+(* total version of build_vars *)
+Fixpoint exp_vars (names : list str) (vi : nat) (scales : list dec) (miss : list (str * dec)) (units : list str)
+                  (rows : list (list cell)) : list rvar :=
+  match names with
+  | [] => []
+  | nm :: t =>
+      let ms := nth vi miss ([], D 0 0) in
+      RVar nm (nth vi units []) (fst ms) (snd ms) (map (cell_apply (nth vi scales (D 1 0)) (snd ms)) (column vi rows))
+      :: exp_vars t (S vi) scales miss units rows
+  end.
+
+Lemma build_vars_exp rows scales miss units : forall names vi,
+  (vi + length names <= length scales)%nat -> (vi + length names <= length miss)%nat ->
+  (vi + length names <= length units)%nat ->
+  build_vars names vi scales miss units rows = Some (exp_vars names vi scales miss units rows).
+Proof.
+  induction names as [|nm t IH]; intros vi H1 H2 H3; [reflexivity|]. cbn [length] in *. cbn [build_vars exp_vars].
+  rewrite (nth_error_nth' scales (D 1 0)) by lia. rewrite (nth_error_nth' miss ([], D 0 0)) by lia.
+  rewrite (nth_error_nth' units []) by lia. rewrite IH by lia. reflexivity.
+Qed.
+
+Lemma exp_vars_names rows scales miss units : forall names vi,
+  map r_name (exp_vars names vi scales miss units rows) = names.
+Proof. induction names as [|nm t IH]; intros vi; [reflexivity|]. cbn [exp_vars map r_name]. rewrite IH. reflexivity. Qed.
+
+Definition put_var (v : rvar) : list rvar -> list rvar :=
+  fix put (s : list rvar) : list rvar :=
+    match s with
+    | [] => [v]
+    | w :: r => if str_eqb (r_name w) (r_name v) then v :: r else w :: put r
+    end.
+Lemma dedup_unfold v t seen : dedup_vars seen (v :: t) = dedup_vars (put_var v seen) t.
+Proof. reflexivity. Qed.
+
+Lemma put_var_fresh v seen :
+  forallb (fun y => negb (str_eqb y (r_name v))) (map r_name seen) = true -> put_var v seen = seen ++ [v].
+Proof.
+  induction seen as [|w r IH]; cbn [map forallb]; intros H; [reflexivity|].
+  apply andb_true_iff in H as [H1 H2]. apply negb_true_iff in H1. cbn [put_var app]. rewrite H1.
+  fold (put_var v). rewrite (IH H2). reflexivity.
+Qed.
+
+Lemma uniq_front a x b : uniq (a ++ x :: b) = true -> forallb (fun y => negb (str_eqb y x)) a = true.
+Proof.
+  induction a as [|y a' IH]; cbn [app uniq forallb]; intros H; [reflexivity|].
+  apply andb_true_iff in H as [H1 H2]. rewrite (IH H2), andb_true_r.
+  apply negb_true_iff in H1. unfold in_strs in H1. rewrite existsb_app in H1. apply orb_false_iff in H1 as [_ H1].
+  cbn [existsb] in H1. apply orb_false_iff in H1 as [H1 _]. rewrite H1. reflexivity.
+Qed.
+
+(* the variables dictionary keeps every variable when the names are distinct *)
+Lemma dedup_id : forall l seen, uniq (map r_name seen ++ map r_name l) = true -> dedup_vars seen l = seen ++ l.
+Proof.
+  induction l as [|v t IH]; intros seen H; [cbn; rewrite app_nil_r; reflexivity|].
+  rewrite dedup_unfold. cbn [map] in H. rewrite (put_var_fresh _ _ (uniq_front _ _ _ H)).
+  rewrite IH; [rewrite <- app_assoc; reflexivity|]. rewrite map_app, <- app_assoc. exact H.
+Qed.
+
+Lemma last_index_absent k : forall t i acc, in_strs k t = false -> last_index k t i acc = acc.
+Proof.
+  induction t as [|x t IH]; intros i acc H; [reflexivity|]. unfold in_strs in H. cbn [existsb] in H.
+  apply orb_false_iff in H as [H1 H2]. cbn [last_index]. rewrite str_eqb_sym, H1. apply IH. exact H2.
+Qed.
+
+Lemma last_index_first k t : uniq (k :: t) = true -> last_index k (k :: t) 0 0 = 0%nat.
+Proof.
+  cbn [uniq]. intros H. apply andb_true_iff in H as [H _]. apply negb_true_iff in H.
+  cbn [last_index]. destruct (str_eqb k k); apply last_index_absent; exact H.
+Qed.
+
+(* THE DATA STAGE ON WHOLE FILES: any number of rows and columns.  If every data row has as many cells
+   as there are names, the names are distinct, there are enough scales / codes / units and the first
+   column is a valid time, read_data returns one variable per name, in order, with the i-th unit,
+   the i-th code (the first code twice) and the i-th column masked against that code. *)
+Lemma read_data_rows n s nm0 nms (rows : list (list dec)) r0 rt :
+  s_vars s = Some (nm0 :: nms) -> uniq (nm0 :: nms) = true ->
+  rows = r0 :: rt -> Forall (fun r => length r = length (nm0 :: nms)) rows ->
+  (length (nm0 :: nms) <= S (length (s_scales s)))%nat ->
+  (length (nm0 :: nms) <= length (firstn 1 (s_miss s) ++ s_miss s))%nat ->
+  (length (nm0 :: nms) <= length (s_units s))%nat ->
+  forallb t_ok (map CV (column 0 rows)) = true ->
+  read_data n s (map PR rows)
+  = Some (RFile n (s_attrs s)
+            (exp_vars (nm0 :: nms) 0 (D 1 0 :: s_scales s) (firstn 1 (s_miss s) ++ s_miss s) (s_units s) (map (map CV) rows))).
+Proof.
+  intros Hv Hu Hr HF Hs Hm Hun Ht. unfold read_data. rewrite Hv, dtb_rows.
+  assert (Hne : map PR rows = PR r0 :: map PR rt) by (rewrite Hr; reflexivity).
+  rewrite Hne at 1. cbv zeta. rewrite map_length, data_rows_PR.
+  assert (HF' : Forall (fun r : list cell => length r = length (nm0 :: nms)) (map (map CV) rows)).
+  { clear -HF. induction HF; constructor; [rewrite map_length; assumption|assumption]. }
+  assert (Hr' : map (map CV) rows = map CV r0 :: map (map CV) rt) by (rewrite Hr; reflexivity).
+  rewrite Hr' at 1.
+  assert (Hall : forallb (fun r : list cell => Nat.eqb (length r) (length (map CV r0))) (map (map CV) rows) = true).
+  { apply forallb_forall. intros r Hin. rewrite Forall_forall in HF'. rewrite (HF' r Hin).
+    assert (In (map CV r0) (map (map CV) rows)) by (rewrite Hr'; left; reflexivity).
+    rewrite (HF' _ H). apply Nat.eqb_refl. }
+  rewrite Hall. cbn [negb].
+  rewrite (concat_length_uniform _ _ HF'), map_length, Nat.eqb_refl. cbn [negb].
+  replace (length rows) with (length (map (map CV) rows)) by apply map_length.
+  assert (Hw : (0 < length (nm0 :: nms))%nat) by (cbn [length]; apply Nat.lt_0_succ).
+  rewrite (chunks_concat _ _ Hw HF').
+  rewrite build_vars_exp by (cbn [length] in *; unfold str in *; lia).
+  rewrite dedup_id by (cbn [map app]; rewrite exp_vars_names; exact Hu).
+  cbn [nth_str nth]. rewrite (last_index_first _ _ Hu), column_map, Ht. reflexivity.
+Qed.
+
+
+(* ------------------------------------------------------------------ writer rows, whole round trip *)
+Lemma transpose_rows_shape n : forall cols,
+  length (transpose_rows n cols) = n /\ Forall (fun r => length r = length cols) (transpose_rows n cols).
+Proof.
+  induction n as [|k IH]; intros cols; cbn [transpose_rows]; [split; [reflexivity|constructor]|].
+  destruct (IH (map (@tl dec) cols)) as [L F]. split; [cbn [length]; rewrite L; reflexivity|].
+  constructor; [apply map_length|]. rewrite map_length in F. exact F.
+Qed.
+
+(* a column of the transposed table is the variable's (filled) cell list *)
+Lemma column_transpose n : forall cols i,
+  Forall (fun c => length c = n) cols -> (i < length cols)%nat ->
+  column i (transpose_rows n cols) = nth i cols [].
+Proof.
+  induction n as [|k IH]; intros cols i HF Hi.
+  - cbn [transpose_rows column]. rewrite Forall_forall in HF.
+    assert (H : length (nth i cols []) = 0%nat) by (apply HF, nth_In, Hi). destruct (nth i cols []); [reflexivity|discriminate].
+  - cbn [transpose_rows column]. rewrite nth_error_map, (nth_error_nth' cols [] Hi). cbn [option_map].
+    rewrite IH.
+    + replace (nth i (map (@tl dec) cols) []) with (tl (nth i cols [])) by (symmetry; apply (map_nth (@tl dec) cols [] i)).
+      rewrite Forall_forall in HF. assert (H : length (nth i cols []) = S k) by (apply HF, nth_In, Hi).
+      destruct (nth i cols []) as [|x c']; [discriminate|reflexivity].
+    + clear -HF. induction HF as [|c t Hc Ht IHt]; constructor; [|exact IHt].
+      destruct c; [discriminate|]. cbn [tl length] in *. lia.
+    + rewrite map_length. exact Hi.
+Qed.
+
+Lemma PR_inj a b : map PR a = map PR b -> a = b.
+Proof.
+  revert b; induction a as [|x t IH]; intros [|y u] H; try discriminate; [reflexivity|].
+  cbn [map] in H. injection H as -> H. f_equal. apply IH, H.
+Qed.
+
+(* what the reader returns for the writer's output, as an explicit function of the input file *)
+Definition expected_vars (f : file) (ind : str) (iv : var) : list rvar :=
+  let deps := depvars ind f in
+  let M := map (fun t => (t, code_of t)) (map code_str deps) in
+  exp_vars (ind :: map v_name deps) 0 (D 1 0 :: map (fun _ => D 1 0) deps) (firstn 1 M ++ M)
+           (line9_unit (indep_line f ind) :: map units_str deps) (map (map CV) (wrows f ind iv)).
+
+(* boolean side conditions of the data stage *)
+Definition data_ok (f : file) (ind : str) (iv : var) : bool :=
+  (1 <=? Z.of_nat (length (v_cells iv)))
+  && forallb (fun v => Nat.eqb (length (v_cells v)) (length (v_cells iv))) (depvars ind f)
+  && uniq (ind :: map v_name (depvars ind f))
+  && forallb t_ok (map CV (column 0 (wrows f ind iv))).
+
+(* WHOLE FILE: write then read, header and data, any number of variables, attributes and records *)
+Lemma roundtrip_whole f n ls ind sd iv :
+  impl_write f = Some (n, ls) ->
+  indep_name f = Some ind -> get_attr (s2z "SDATE") (f_attrs f) = Some sd -> find_var ind f = Some iv ->
+  forallb no_nl (hdr_other f ind sd) = true ->
+  header_ok f ind = true -> data_ok f ind iv = true ->
+  exists A, impl_roundtrip f = Some (RFile n A (expected_vars f ind iv)).
+Proof.
+  intros W Hi Hs Hf Hn Hok Hd.
+  destruct (roundtrip_through_header _ _ _ _ _ _ W Hi Hs Hf Hn Hok) as (s & R & Pv & Pm & Pu & Psc & _).
+  unfold data_ok in Hd. apply andb_true_iff in Hd as [Hd Ht]. apply andb_true_iff in Hd as [Hd Hu].
+  apply andb_true_iff in Hd as [Hrec Hlen]. apply Z.leb_le in Hrec.
+  unfold header_ok in Hok. repeat (apply andb_true_iff in Hok as [Hok _]).
+  set (deps := depvars ind f) in *.
+  destruct deps as [|d0 dt] eqn:Edeps; [discriminate|]. rewrite <- Edeps in *.
+  set (cols := filled iv :: map filled deps).
+  destruct (transpose_rows_shape (length (v_cells iv)) cols) as [Ln Fw].
+  assert (Hrows : exists r0 rt, wrows f ind iv = r0 :: rt).
+  { unfold wrows. fold deps. fold cols. destruct (transpose_rows (length (v_cells iv)) cols) as [|r0 rt]; [cbn in Ln; lia|].
+    eexists. eexists. reflexivity. }
+  destruct Hrows as (r0 & rt & Hr).
+  exists (s_attrs s). rewrite R.
+  rewrite (read_data_rows n s ind (map v_name deps) (wrows f ind iv) r0 rt Pv Hu Hr).
+  - unfold expected_vars. fold deps. rewrite Pm, Pu, Psc. reflexivity.
+  - unfold wrows. fold deps. fold cols. apply Forall_forall. intros r Hin. apply in_map_iff in Hin as (r' & <- & Hin).
+    rewrite map_length. rewrite Forall_forall in Fw. rewrite (Fw _ Hin). unfold cols. cbn [length]. rewrite !map_length. reflexivity.
+  - rewrite Psc. cbn [length]. rewrite !map_length. lia.
+  - rewrite Pm, Edeps. cbn [map firstn app length]. rewrite !map_length. lia.
+  - rewrite Pu. cbn [length]. rewrite !map_length. lia.
+  - exact Ht.
+Qed.
+
+(* ------------------------------------------------------------------ tie T: the line numbers as written in the source *)
+From PNC Require Gen.IcarttSrc.
+(* the if/elif chain of ffi1001.__init__ spelled with the definitions REGENERATED from ffi1001.py on every run *)
+Definition classify_src (n nm nsc li : Z) : lkind :=
+  let lvd := Gen.IcarttSrc.LAST_VAR_DESC_LINE nm in
+  let scc := Gen.IcarttSrc.SPECIAL_COMMENT_COUNT_LINE lvd in
+  let lsc := Gen.IcarttSrc.LAST_SPECIAL_COMMENT_LINE scc nsc in
+  let ucc := Gen.IcarttSrc.USER_COMMENT_COUNT_LINE nm nsc in
+  if (li =? Gen.IcarttSrc.PI_LINE) || (li =? Gen.IcarttSrc.ORG_LINE) || (li =? Gen.IcarttSrc.PLAT_LINE)
+     || (li =? Gen.IcarttSrc.MISSION_LINE) || (li =? Gen.IcarttSrc.VOL_LINE) || (li =? Gen.IcarttSrc.DATE_LINE)
+     || (li =? Gen.IcarttSrc.TIME_INT_LINE) || (li =? Gen.IcarttSrc.UNIT_LINE) then K_fixed
+  else if li =? Gen.IcarttSrc.SCALE_LINE then K_scale
+  else if li =? Gen.IcarttSrc.MISSING_LINE then K_missing
+  else if (Gen.IcarttSrc.MISSING_LINE <? li) && (li <=? lvd) then K_desc
+  else if li =? scc then K_spcount
+  else if (scc <? li) && (li <=? lsc) then K_special
+  else if li =? ucc then K_ucount
+  else if (ucc <? li) && (li <? n) then K_user
+  else if li =? n then K_names
+  else K_skip.
+
+Lemma classify_is_source n nm nsc li : classify n nm nsc li = classify_src n nm nsc li.
+Proof.
+  unfold classify, classify_src, Gen.IcarttSrc.LAST_VAR_DESC_LINE, Gen.IcarttSrc.SPECIAL_COMMENT_COUNT_LINE,
+    Gen.IcarttSrc.LAST_SPECIAL_COMMENT_LINE, Gen.IcarttSrc.USER_COMMENT_COUNT_LINE, Gen.IcarttSrc.PI_LINE,
+    Gen.IcarttSrc.ORG_LINE, Gen.IcarttSrc.PLAT_LINE, Gen.IcarttSrc.MISSION_LINE, Gen.IcarttSrc.VOL_LINE,
+    Gen.IcarttSrc.DATE_LINE, Gen.IcarttSrc.TIME_INT_LINE, Gen.IcarttSrc.UNIT_LINE, Gen.IcarttSrc.SCALE_LINE,
+    Gen.IcarttSrc.MISSING_LINE. cbv zeta.
+  split_tests.
+Qed.
+
+Lemma header_count_is_source f ind :
+  header_count f ind = Gen.IcarttSrc.header_count_expr (Z.of_nat (length (myattrs f))) (Z.of_nat (length (depvars ind f)))
+  /\ Gen.IcarttSrc.format_number = 1001.
+Proof. split; reflexivity. Qed.
